@@ -155,6 +155,17 @@ def replay(pid, ob, repo):
                 if v is not None:
                     setattr(cls, f, v)
         pre_ns = copy.deepcopy(args)
+        if ob.get('candidate_input'):
+            # a candidate input (not a solver counterexample) must satisfy every precondition natively,
+            # otherwise a failure on it says nothing about the contract
+            for rq in c.requires:
+                rq_text = rq[0] if isinstance(rq, tuple) else rq
+                try:
+                    ok_pre = eval_clause(rq_text, model, pre_ns, pre_ns)
+                except Exception as e:  # noqa
+                    return {'reproduced': False, 'reason': 'precondition not evaluable natively on the candidate input: %s (%r)' % (rq_text[:80], e)}
+                if not ok_pre:
+                    return {'reproduced': False, 'reason': 'candidate input violates the precondition %s' % rq_text[:120]}
         call_args = dict(args)
         observed = None
         raised = None
